@@ -52,13 +52,18 @@ NoCommon == { Dim(r, v, [F0 EXCEPT !.mustFail = TRUE, !.kind = k]) : r \in Roles
 SidsIn(S_) == {m \in Mutual : m.sid \in S_}
 Range2 == { [Dim(r, v, [F0 EXCEPT !.kind = "range"]) EXCEPT !.sid = m.sid, !.tokens = m.tokens] :
             r \in Roles, v \in Versions \cap {1, 2, 3}, m \in SidsIn({47, 49171, 51}) }
+\* ... and the converse: tlslite-ng pinned to one older version against an OpenSSL that enables everything up to TLS 1.3
+\* (a server limited to TLS 1.2 must not mark its hello as a downgrade; a client limited to TLS 1.2 must accept the mark
+\* a TLS 1.3 capable server sets)
+Range2Os == { [Dim(r, v, [F0 EXCEPT !.kind = "range-os"]) EXCEPT !.sid = m.sid, !.tokens = m.tokens] :
+              r \in Roles, v \in Versions \cap {1, 2, 3}, m \in SidsIn({47, 49171}) }
 \* TLS 1.3 with a HelloRetryRequest (the server does not enable the group of the client's first key share),
 \* as a full handshake and as a ticket resumption
 Hrr == { Dim(r, 4, [F0 EXCEPT !.kind = k, !.resume = (k = "hrr-resume")]) : r \in Roles \cap (IF 4 \in Versions THEN Roles ELSE {}),
                                                                             k \in {"hrr", "hrr-resume"} }
 \* post-handshake client authentication requested (twice) by an OpenSSL server from a tlslite-ng client
 Pha == { Dim("tlc", 4, [F0 EXCEPT !.kind = "pha", !.cauth = TRUE]) : x \in (IF 4 \in Versions THEN {1} ELSE {}) }
-Cases == Pha \cup Base \cup Groups \cup Creds13 \cup Creds12 \cup Alpn \cup Resume \cup ClientAuth \cup NoCommon \cup Range2 \cup Hrr \cup GroupsEc
+Cases == Pha \cup Base \cup Groups \cup Creds13 \cup Creds12 \cup Alpn \cup Resume \cup ClientAuth \cup NoCommon \cup Range2 \cup Range2Os \cup Hrr \cup GroupsEc
 
 ExpectedAlpn(c) == CASE c.alpn = "none" -> "" [] c.alpn = "overlap" -> "h2" [] c.alpn = "first" -> "http/1.1" [] OTHER -> "-"
 
